@@ -76,6 +76,12 @@ var readfFuncs = []struct {
 		return b[:1], 2
 	}},
 	{"refuse", func(b []byte) ([]byte, int) { return nil, 0 }},
+	{"consume-two-return-no-value", func(b []byte) ([]byte, int) { // a skipper: it consumes input and has nothing to hand back
+		if len(b) < 2 {
+			return nil, 0
+		}
+		return nil, 2
+	}},
 }
 
 func c09Content(res *explore.Result, content string, pi int, verbose bool) {
